@@ -168,11 +168,32 @@ def run_check(tier, seed):
     exprs, meta = [], []          # correspondence + oracle on modelled macros
     sexprs, smeta = [], []        # oracle only (sem_goal) for the other macros
     n = 220 if tier == 'quick' else 2500
-    for i in range(n):
-        tname = r.choice(['nat', 'int', 'real'])
-        T = TYPES[tname]
-        lhs = g.expr(T, r.choice([1, 2, 2, 3]))
-        c = r.random()
+    # directed: numerals that are not in canonical form (leading zero digits: bit1 0 = 1, bit0 (bit1 0) = 2, bit1 (bit0 0) = 1,
+    # bit1 (bit1 0) = 3, ...), alone, under of_nat and inside sums / products, against the value the digits have and
+    # against the value of the numeral without them
+    directed = []
+    bit0 = Const('bit0', TFun(NatType, NatType))
+    bit1 = Const('bit1', TFun(NatType, NatType))
+    zero_n, one_n = Const('zero', NatType), Const('one', NatType)
+    odd = [(bit1(zero_n), 1), (bit0(bit1(zero_n)), 2), (bit1(bit0(zero_n)), 1), (bit1(bit1(zero_n)), 3), (bit0(bit0(one_n)), 4),
+           (bit1(bit0(bit1(zero_n))), 5), (bit0(zero_n), 0)]
+    for tname_ in ('nat', 'int', 'real'):
+        T_ = TYPES[tname_]
+        for num_t, val_ in odd:
+            emb = num_t if T_ == NatType else kterm.of_nat(T_)(num_t)
+            for lhs_, v_ in ((emb, val_), (kterm.plus(T_)(emb, Number(T_, 2)), val_ + 2), (kterm.times(T_)(emb, Number(T_, 3)), val_ * 3)):
+                for rv in sorted({v_, v_ - val_ * (1 if lhs_.is_plus() or lhs_ == emb else 3), 0}):
+                    if rv >= 0:
+                        directed.append((tname_, lhs_, Number(T_, rv)))
+    for i in range(n + len(directed)):
+        if i >= n:
+            tname, lhs, rhs_d = directed[i - n]
+            T = TYPES[tname]
+        else:
+            tname = r.choice(['nat', 'int', 'real'])
+            T = TYPES[tname]
+            lhs = g.expr(T, r.choice([1, 2, 2, 3]))
+        c = r.random() if i < n else 2.0
         try:
             val = py_sem(lhs)
         except Exception:
@@ -195,6 +216,9 @@ def run_check(tier, seed):
                 v2 = Fraction(int(v2))
             rhs = Number(T, v2 if T == RealType else int(v2))
             kind = 'near-miss'
+        elif i >= n:
+            rhs = rhs_d
+            kind = 'noncanonical-numeral'
         else:
             rhs = g.expr(T, 1)
             kind = 'random-rhs'
